@@ -181,7 +181,10 @@ class C17Monitor:
             now = im.get_time()
             # all past times once (they must not change: C06), the last two times every record
             start = max(0, min(self.checked_upto.get(im.name, 0), now - 1))
-            for t in list(range(start, now + 1)):
+            # ... and time 0, the middle of the run so far and a rotating earlier time at every record: the value
+            # "at any time" is asked again much later than it was recorded
+            again = {0, now // 2, (now * 7 + 3) % (now + 1)}
+            for t in sorted(set(range(start, now + 1)) | again):
                 vals = [c.get_market_price(t) for c in ms]
                 exp = wmean(vals, sh)
                 res.count("index_values_checked")
